@@ -182,6 +182,9 @@ def oracle(chk: C.Check, r, thorough: bool) -> tuple[int, int, list]:
         ("{% macro m %}{% include 'q' %}{% endmacro %}{% call m %}", {"q": "Q"}, ("E", "DisabledTagError")),
         ("{% render 'p', x: 1 %}", {"p": "{% render 'q' %}", "q": "[{{ x }}]"}, ("T", "[]")),
         ("{% assign y = 'L' %}{% for i in (1..1) %}{% render 'q' %}{% endfor %}", {"q": "[{{ y }}{{ i }}{{ forloop.index }}]"}, ("T", "[]")),
+        # the name bound by render ... with / for must be visible in the partial even without any other data (fixed in /repo 95ad23b)
+        ("{% render 'q' with 'x' as y %}", {"q": "[{{ y }}]"}, ("T", "[x]")),
+        ("{% render 'q' for (1..2) as y %}", {"q": "[{{ y }}{{ forloop.index }}]"}, ("T", "[11][22]")),
         # include inside a {% block %} of a rendered template (fixed in /repo 65d399b)
         ("{% render 'child' %}", {"base": "{% block b %}{% endblock %}", "x": "X",
                                  "child": "{% extends 'base' %}{% block b %}{% include 'x' %}{% endblock %}"},
